@@ -1967,6 +1967,8 @@ size_t rtosc_scan_arg_val(const char* src,
 
         bool llhsarg_is_useless =
             (args_before < 1 ||
+            // only numeric ranges can have a delta (as in the syntax check)
+            !strchr(numeric_range_types(), lhsarg.type) ||
             lhsarg.type == '-' || !types_match(llhsarg->type, lhsarg.type)
             /* this includes llhsarg == '-' */
             || !rtosc_arg_vals_cmp_single(llhsarg, &lhsarg, NULL));
